@@ -15,7 +15,7 @@ from gen.programs import INT, BOOL, STR, FLOAT, VOID, tup, fn, iter_of, arr, cel
 from props import c11, c13
 from vlib import esc_field, harness_run, sexp_parse, sexp_str
 
-THM_MODULES = ["SslModel.Thm.C01", "SslModel.Thm.C01Eval", "SslModel.Thm.C01Fn", "SslModel.Thm.C01StA", "SslModel.Thm.C01StB", "SslModel.Thm.C01StU", "SslModel.Thm.C01StS", "SslModel.Thm.C01StC", "SslModel.Thm.C01StD"]
+THM_MODULES = ["SslModel.Thm.C01", "SslModel.Thm.C01Eval", "SslModel.Thm.C01Fn", "SslModel.Thm.C01StA", "SslModel.Thm.C01StB", "SslModel.Thm.C01StU", "SslModel.Thm.C01StS", "SslModel.Thm.C01StC", "SslModel.Thm.C01StD", "SslModel.Thm.C01Fold"]
 TRANSLATE_PARTS = ["scalar", "errors"]
 ANY = ("any",)
 
